@@ -31,6 +31,7 @@ MANIFEST = {
     "note": "A clean sanitizer run is not memory safety: red zones miss intra-object overflows except through UBSan 'bounds' on fixed arrays. "
             "MSan only for C (libstdc++ is not instrumented). Pointers formed but never dereferenced are not judged.",
 }
+MANIFEST["text"] += ' The corpus includes unions whose alternatives own heap memory two levels down (no variable-length array of their own).'
 
 
 def documented_rcs(base):
